@@ -27,6 +27,11 @@ pub fn gen_c19_case(g: &mut G) -> Value {
         doc["definitions"]["SurfacePlainString"] = json!({"type": "string"});
         doc["definitions"]["SurfaceShortString"] = json!({"type": "string", "maxLength": 5});
         doc["definitions"]["SurfaceWithFloat"] = json!({"type": "object", "properties": {"ratio": {"type": "number"}, "units": {"$ref": "#/definitions/SurfaceExternalUnits"}}, "required": ["ratio"]});
+        // bare aliases that close a containment cycle, sorting after / before the struct they name
+        doc["definitions"]["SurfaceNode"] = json!({"type": "object", "properties": {"next": {"$ref": "#/definitions/SurfaceNodeRef"}, "v": {"type": "integer"}}});
+        doc["definitions"]["SurfaceNodeRef"] = json!({"$ref": "#/definitions/SurfaceNode"});
+        doc["definitions"]["SurfaceZed"] = json!({"type": "object", "properties": {"next": {"$ref": "#/definitions/SurfaceAlias"}, "v": {"type": "integer"}}});
+        doc["definitions"]["SurfaceAlias"] = json!({"$ref": "#/definitions/SurfaceZed"});
         doc["definitions"]["SurfaceFloatEnum"] = json!({"oneOf": [{"type": "number"}, {"type": "string", "enum": ["auto"]}]});
     }
     let settings = settings(g, &doc, true);
